@@ -74,6 +74,15 @@ func fieldKey(t types.Type, idx int) string {
 	return name + "." + fieldName(t, idx)
 }
 
+// isRootStruct: t (or *t) is a named struct type declared in the analysed package.
+func (u *Unit) isRootStruct(t types.Type) bool {
+	if p, ok := t.Underlying().(*types.Pointer); ok {
+		t = p.Elem()
+	}
+	n, ok := t.(*types.Named)
+	return ok && n.Obj().Pkg() == u.Root.Types
+}
+
 // Callers returns the static call sites of fn within the root package.
 func (u *Unit) Callers(fn *ssa.Function) []CallSite { return u.flow().callers[fn] }
 
@@ -385,6 +394,8 @@ type TaintOpts struct {
 	Neutral map[string]bool
 	// Sink decides whether passing tainted data as argument argIdx to callee is a violation.
 	Sink func(callee string, argIdx int, cs CallSite) bool
+	// Stop: callees (by predicate) that consume the value; neither sink nor propagation.
+	Stop func(callee string) bool
 	// FollowInto: descend into root-package callees through parameters.
 	FollowInto bool
 	MaxNodes   int
@@ -433,7 +444,7 @@ func (u *Unit) Taint(src ssa.Value, opt *TaintOpts) []TaintHit {
 				c := x.Common()
 				name := u.CalleeName(c)
 				cs := CallSite{x.Parent(), x, name}
-				if opt.Sanitizers[name] || opt.Neutral[name] {
+				if opt.Sanitizers[name] || opt.Neutral[name] || (opt.Stop != nil && opt.Stop(name)) {
 					continue
 				}
 				for i, a := range c.Args {
@@ -486,8 +497,14 @@ func (u *Unit) Taint(src ssa.Value, opt *TaintOpts) []TaintHit {
 					}
 				case *ssa.FieldAddr:
 					// taint the base object's field: any load of that field key
+					// (only for struct types of the analysed package; for foreign
+					// types such as http.Cookie only the base object is tainted)
 					key := fieldKey(a.X.Type(), a.Field)
-					for _, fn := range u.SrcFuncs() {
+					srcFuncs := u.SrcFuncs()
+					if !u.isRootStruct(a.X.Type()) {
+						srcFuncs = nil
+					}
+					for _, fn := range srcFuncs {
 						Instrs(fn, func(in ssa.Instruction) {
 							if ld, ok := in.(*ssa.UnOp); ok && ld.Op == token.MUL {
 								if fa, ok := ld.X.(*ssa.FieldAddr); ok && fieldKey(fa.X.Type(), fa.Field) == key {
